@@ -7,8 +7,9 @@ Values in cells and data: int | "str" | [list] | {"t":[tuple]} | {"d":{dict}} | 
 Input item:  {"d": int | {"cell": k}, "c": null | k}     (k: serial of an upstream object, namespace 0)
 with "heap": {"<k>": value} giving the content of every upstream object.
 Branch spec: {"kind":"source"|"fc"|"fr"|"seq","steps":[step..],"term":acc,"n":k}
-  step: {"s":"var"|"mkfn"|"tag"|"count","name":..} | {"s":"upd","key":..,"v":i} | {"s":"app","v":i} | {"s":"stop","n":k}
-  acc:  {"a":"sum"|"dsum"|"histogram"|"store"|"keeplast"|"reqsum"|"reqstore"} | {"a":"count","name":..}
+  step: {"s":"var"|"mkfn"|"tag"|"count","name":..} | {"s":"upd","key":..,"v":i} | {"s":"app"|"touch"|"touchc","v":i}
+        | {"s":"setd","key":..,"v":i} | {"s":"stop","n":k} | {"s":"emit"}
+  acc:  {"a":"sum"|"dsum"|"histogram"|"nphist"|"store"|"keeplast"|"reqsum"|"reqstore"} | {"a":"count","name":..}
         | {"a":"mean","seq":null|"sum"|{"count":name},"poe":bool} | {"a":"vmc","corrected":bool,"poe":bool}
         | {"a":"vectorize","dim":k} | {"a":"sib","var":..,"lo":i,"hi":i}
 Requests:
@@ -81,6 +82,8 @@ def stepOf (j : Json) : Option Step :=
   | some "setd" => do some (.setd (← str? (getD j "key")) (← int? (getD j "v")))
   | some "stop" => (nat? (getD j "n")).map Step.stop
   | some "emit" => some .emit
+  | some "touch" => (int? (getD j "v")).map Step.touch
+  | some "touchc" => (int? (getD j "v")).map Step.touchc
   | _ => none
 
 def accOf (j : Json) : Option AccKind :=
@@ -88,6 +91,7 @@ def accOf (j : Json) : Option AccKind :=
   | some "sum" => some .sum
   | some "dsum" => some .dsum
   | some "histogram" => some .histogram
+  | some "nphist" => some .numpyHist
   | some "store" => some .store
   | some "keeplast" => some .keepLast
   | some "reqsum" => some .reqSum
